@@ -21,6 +21,7 @@ enum Info {
     RemoveLabel { label: String, modulus: i64, rem: i64 },
     SetProp { label: String, prop: String, modulus: i64, rem: i64 },
     Delete { modulus: i64, rem: i64 },
+    RemoveProp { prop: String, modulus: i64, rem: i64 },
     Other,
 }
 
@@ -106,7 +107,10 @@ fn gen_history(seed: u64, k: usize) -> (Vec<Step>, (String, String), usize) {
                 let r = rng.below(2) as i64;
                 stmt(format!("MATCH (n:{l}) WHERE n.uid % 2 = {r} SET n.{p} = {v}"), Info::SetProp { label: l.to_string(), prop: p.to_string(), modulus: 2, rem: r })
             }
-            3 => stmt(format!("MATCH (n:{l}) WHERE n.uid % 3 = {} REMOVE n.{p}", rng.below(3)), Info::Other),
+            3 => {
+                let r = rng.below(3) as i64;
+                stmt(format!("MATCH (n:{l}) WHERE n.uid % 3 = {r} REMOVE n.{p}"), Info::RemoveProp { prop: p.to_string(), modulus: 3, rem: r })
+            }
             4 => {
                 let r = rng.below(3) as i64;
                 stmt(format!("MATCH (n) WHERE n.uid % 3 = {r} SET n:{l}"), Info::AddLabel { label: l.to_string(), modulus: 3, rem: r })
@@ -119,7 +123,7 @@ fn gen_history(seed: u64, k: usize) -> (Vec<Step>, (String, String), usize) {
                 let r = rng.below(4) as i64;
                 stmt(format!("MATCH (n:{l}) WHERE n.uid % 4 = {r} DETACH DELETE n"), Info::Delete { modulus: 4, rem: r })
             }
-            7 => stmt(format!("MATCH (n:{l}) SET n.{p} = null"), Info::Other),
+            7 => stmt(format!("MATCH (n:{l}) SET n.{p} = null"), Info::RemoveProp { prop: p.to_string(), modulus: 1, rem: 0 }),
             8 => Step::Compact,
             _ => Step::Reopen,
         };
@@ -327,6 +331,8 @@ fn classify(steps: &[Step], idx: &(String, String), with_index: &[String], witho
     let mut label_removed = false;
     let mut prop_set_after_index = false;
     let mut maybe_deleted = false;
+    let mut maybe_prop_removed = false;
+    let compacted = steps.iter().any(|s| matches!(s, Step::Compact));
     for (i, s) in steps.iter().enumerate() {
         if let Step::Stmt(_, info) = s {
             match info {
@@ -337,6 +343,7 @@ fn classify(steps: &[Step], idx: &(String, String), with_index: &[String], witho
                 Info::AddLabel { label, modulus, rem } if label == il && uid % modulus == *rem && created_at.is_some() && first_label != *il => label_added_later = true,
                 Info::RemoveLabel { label, modulus, rem } if label == il && uid % modulus == *rem && created_at.is_some() => label_removed = true,
                 Info::Delete { modulus, rem } if uid % modulus == *rem && created_at.is_some() => maybe_deleted = true,
+                Info::RemoveProp { prop, modulus, rem } if prop == ip && uid % modulus == *rem && created_at.is_some() => maybe_prop_removed = true,
                 Info::SetProp { label: _, prop, modulus, rem } if prop == ip && uid % modulus == *rem && index_pos.map(|p| i > p).unwrap_or(false) => prop_set_after_index = true,
                 _ => {}
             }
@@ -357,6 +364,15 @@ fn classify(steps: &[Step], idx: &(String, String), with_index: &[String], witho
             && !prop_set_after_index
         {
             return "node-existed-before-the-index".into();
+        }
+        // the scan (no index) returns a node that the history deleted, or matches a property the
+        // history removed, and a compaction ran: compaction brings both back (recorded under C05);
+        // the indexed lookup is the one that is right here
+        if compacted && maybe_deleted {
+            return "deleted-node-visible-to-the-scan-after-compaction".into();
+        }
+        if compacted && maybe_prop_removed {
+            return "removed-property-visible-to-the-scan-after-compaction".into();
         }
         "-".into()
     } else {
